@@ -214,4 +214,57 @@ def lift_to_guard(F, body, bi, pred, depth=3, _seen=None):
     out = []
     for (croot, cbid, cbi, ct) in callers:
         out.extend(lift_to_guard(F, F.bodies[cbid], cbi, pred, depth - 1, _seen))
-    return out or [(body, bi, False, wit)]
+    if not any(x[2] for x in out):
+        return [(body, bi, False, wit)]     # no caller establishes the guard either: report the site itself
+    return out
+
+
+def slice_has_field(F, body, s, adt_suffix, field):
+    """has_field that also understands the precise closure captures of edition 2021
+    (an upvar named `*__self.<field>` inside a closure of a method of <adt>)"""
+    if s.has_field(adt_suffix, field):
+        return True
+    if body.parent:
+        st = self_type_of(F, F.root_of[body.id])
+        if st.endswith(adt_suffix):
+            for x in s.sources:
+                if x[0] == "upvar" and re.search(r"(^|\.)self\.%s(\.|$)" % re.escape(field), x[1].replace("*", "").replace("__self", "self")):
+                    return True
+    return False
+
+
+def field_calls(F, body, adt_suffix, field, method_rx, arg=0):
+    """field_receiver_calls + closure captures: calls matching method_rx whose argument `arg` derives from (adt, field)"""
+    r = re.compile(method_rx)
+    out = []
+    for bi, t in body.calls():
+        k = strip_generics(callee_key(t) or "")
+        if not r.search(k) or len(t["args"]) <= arg:
+            continue
+        s = Slice(F, body).operand(t["args"][arg])
+        if slice_has_field(F, body, s, adt_suffix, field):
+            out.append((bi, t))
+    return out
+
+
+SENDER_TY = re.compile(r"^(d_engine_core::maybe_clone_oneshot::MaybeCloneOneshotSender<|tokio::sync::oneshot::Sender<)")
+
+
+def is_sender_ty(F, ty):
+    """a response sender, or a workspace struct with a response sender as a direct field"""
+    ty = ty or ""
+    if SENDER_TY.match(ty):
+        return True
+    a = F.adts.get(strip_generics(ty)) if ty.startswith("d_engine_") else None
+    if a and a.get("kind") == "struct":
+        return any(SENDER_TY.match(t or "") for v in a["variants"] for (_n, t) in v["fields"])
+    return False
+
+
+def carries_sender(F, body, dst):
+    """does the loop item bound at block dst (or its direct successors) include a response sender"""
+    for blk in [dst] + list(body.succ(dst)):
+        for st in body.stmts(blk):
+            if "lhs" in st and not st["lhs"].get("pj") and is_sender_ty(F, body.local_ty(st["lhs"]["l"])):
+                return True
+    return False
